@@ -7,6 +7,7 @@ import (
 	"regexp"
 	"strconv"
 	"strings"
+	"time"
 
 	"encoding/binary"
 	"encoding/hex"
@@ -229,7 +230,7 @@ func Encode(req int, op Op, nowNs int64) *Wire {
 				for ei, e := range s.Entries {
 					ee, x := mk(si, ei, e, false)
 					x.Labels, x.LabelKey = exp, labelKey(exp)
-					m := map[string]any{"ts": strconv.FormatInt(ee.ts, 10)}
+					m := map[string]any{"ts": wireTs(ee.ts, si+ei)}
 					if ee.hasV {
 						m["value"] = ee.val
 					} else {
@@ -243,6 +244,7 @@ func Encode(req int, op Op, nowNs int64) *Wire {
 			streams = append(streams, st)
 		}
 		w.Body, _ = json.Marshal(map[string]any{"streams": streams})
+		w.Body = rotateKeys(w.Body, keyRot(op))
 	case "loki-proto":
 		w.Path, w.ContentType = "/loki/api/v1/push", "application/x-protobuf"
 		pr := &logproto.PushRequest{}
@@ -351,6 +353,7 @@ func Encode(req int, op Op, nowNs int64) *Wire {
 			arr = []map[string]any{}
 		}
 		w.Body, _ = json.Marshal(arr)
+		w.Body = rotateKeys(w.Body, keyRot(op))
 	case "datadog-metrics":
 		w.Path, w.ContentType = "/api/v2/series", "application/json"
 		var series []map[string]any
@@ -367,12 +370,19 @@ func Encode(req int, op Op, nowNs int64) *Wire {
 				pts = []map[string]any{}
 			}
 			var res []map[string]any
-			for _, kv := range s.Labels {
+			exp := map[string]string{"__name__": fmt.Sprintf("metric_%d", si)}
+			for i, kv := range s.Labels {
 				res = append(res, map[string]any{"name": kv[1], "type": kv[0]})
+				exp[fmt.Sprintf("resource%d_name", i+1)] = kv[1]
+				exp[fmt.Sprintf("resource%d_type", i+1)] = kv[0]
+			}
+			for k := len(w.Rows) - len(s.Entries); k < len(w.Rows); k++ {
+				w.Rows[k].Labels, w.Rows[k].LabelKey = exp, labelKey(exp)
 			}
 			series = append(series, map[string]any{"metric": fmt.Sprintf("metric_%d", si), "points": pts, "resources": res})
 		}
 		w.Body, _ = json.Marshal(map[string]any{"series": series})
+		w.Body = rotateKeys(w.Body, keyRot(op))
 	case "otlp-logs":
 		w.Path, w.ContentType = "/v1/logs", "application/x-protobuf"
 		ld := &otlpLogs.LogsData{}
@@ -497,6 +507,7 @@ func Encode(req int, op Op, nowNs int64) *Wire {
 				spans = []json.RawMessage{}
 			}
 			w.Body, _ = json.Marshal(spans)
+			w.Body = rotateKeys(w.Body, keyRot(op))
 		}
 	case "elastic-bulk", "elastic-doc":
 		// server-side timestamps: TsNs = -1 means "not comparable"
@@ -580,4 +591,124 @@ func Encode(req int, op Op, nowNs int64) *Wire {
 		panic("unknown proto " + op.Proto)
 	}
 	return w
+}
+
+// ---- key order of JSON objects on the wire ----
+//
+// encoding/json writes map keys sorted; real clients do not. rotateKeys re-emits a JSON document with the keys of
+// every object rotated by rot positions (rot = 0 keeps the document as it is), values untouched: a streaming decoder
+// must not depend on which member of an object arrives first.
+
+type okv struct {
+	K string
+	V any
+}
+type oobj []okv
+
+func parseOrdered(dec *json.Decoder) (any, error) {
+	t, err := dec.Token()
+	if err != nil {
+		return nil, err
+	}
+	switch d := t.(type) {
+	case json.Delim:
+		switch d {
+		case '{':
+			var o oobj
+			for dec.More() {
+				kt, err := dec.Token()
+				if err != nil {
+					return nil, err
+				}
+				v, err := parseOrdered(dec)
+				if err != nil {
+					return nil, err
+				}
+				o = append(o, okv{kt.(string), v})
+			}
+			_, err := dec.Token()
+			return o, err
+		case '[':
+			a := []any{}
+			for dec.More() {
+				v, err := parseOrdered(dec)
+				if err != nil {
+					return nil, err
+				}
+				a = append(a, v)
+			}
+			_, err := dec.Token()
+			return a, err
+		}
+	}
+	return t, nil
+}
+
+func emitOrdered(b *bytes.Buffer, v any, rot int) {
+	switch x := v.(type) {
+	case oobj:
+		b.WriteByte('{')
+		n := len(x)
+		for i := 0; i < n; i++ {
+			kv := x[(i+rot)%n]
+			if i > 0 {
+				b.WriteByte(',')
+			}
+			k, _ := json.Marshal(kv.K)
+			b.Write(k)
+			b.WriteByte(':')
+			emitOrdered(b, kv.V, rot)
+		}
+		b.WriteByte('}')
+	case []any:
+		b.WriteByte('[')
+		for i, e := range x {
+			if i > 0 {
+				b.WriteByte(',')
+			}
+			emitOrdered(b, e, rot)
+		}
+		b.WriteByte(']')
+	case json.Number:
+		b.WriteString(string(x))
+	default:
+		e, _ := json.Marshal(x)
+		b.Write(e)
+	}
+}
+
+func rotateKeys(doc []byte, rot int) []byte {
+	if rot <= 0 {
+		return doc
+	}
+	dec := json.NewDecoder(bytes.NewReader(doc))
+	dec.UseNumber()
+	v, err := parseOrdered(dec)
+	if err != nil {
+		return doc
+	}
+	var b bytes.Buffer
+	emitOrdered(&b, v, rot)
+	return b.Bytes()
+}
+
+// keyRot is the rotation of object keys on the wire for an operation (0 = sorted, as encoding/json writes them).
+func keyRot(op Op) int {
+	if len(op.Streams) == 0 {
+		return 0
+	}
+	return op.Streams[0].Perm
+}
+
+// wireTs renders the timestamp of the Loki JSON entries layout ({"ts":..,"line":..}; the values layout takes decimal
+// nanoseconds only): nanoseconds as a decimal string, or - for some entries - RFC 3339 with
+// nanoseconds, in UTC or with a zone offset (both name the same instant).
+func wireTs(ts int64, k int) string {
+	switch k % 7 {
+	case 3:
+		return time.Unix(0, ts).UTC().Format(time.RFC3339Nano)
+	case 5:
+		return time.Unix(0, ts).In(time.FixedZone("", 2*3600+1800)).Format(time.RFC3339Nano)
+	}
+	return strconv.FormatInt(ts, 10)
 }
